@@ -134,6 +134,24 @@ impl<'a> Rd<'a> {
 }
 
 /// the key a block reference written in a note of directory `dir` points to (independent of iwe: crate relative-path only)
+/// the relative url for the note `target` (a key) written from a note in directory `dir`, computed
+/// component-wise and independently of the implementation's `Key::to_rel_link_url` (generators use this
+/// one, so that a defect there cannot hide itself in the generated inputs)
+pub fn rel_url(target: &str, dir: &str) -> String {
+    let d: Vec<&str> = dir.split('/').filter(|c| !c.is_empty()).collect();
+    let t: Vec<&str> = target.split('/').filter(|c| !c.is_empty()).collect();
+    let mut p = 0;
+    while p < d.len() && p + 1 < t.len() && d[p] == t[p] {
+        p += 1;
+    }
+    let mut out: Vec<&str> = vec![];
+    for _ in p..d.len() {
+        out.push("..");
+    }
+    out.extend(&t[p..]);
+    out.join("/")
+}
+
 pub fn resolve(dest: &str, dir: &str) -> String {
     relative_path::RelativePath::new(dir).join_normalized(strip_md(dest)).to_string()
 }
